@@ -368,6 +368,27 @@ def abstract_nonlinear(formulas):
     def is_num(e):
         return z3.is_int_value(e) or z3.is_rational_value(e)
 
+    def split_coef(e):
+        """e == coef * rest (rest None when e is a numeral); only a leading numeral factor of a product is split off"""
+        from fractions import Fraction
+        def val(c):
+            return Fraction(c.as_long()) if z3.is_int_value(c) else Fraction(c.numerator_as_long(), c.denominator_as_long())
+        if is_num(e):
+            return val(e), None
+        if z3.is_app(e) and e.decl().kind() == z3.Z3_OP_MUL:
+            ks = e.children()
+            nums = [c for c in ks if is_num(c)]
+            rest = [c for c in ks if not is_num(c)]
+            if nums and rest:
+                q = Fraction(1)
+                for c in nums:
+                    q *= val(c)
+                r = rest[0]
+                for c in rest[1:]:
+                    r = r * c
+                return q, r
+        return Fraction(1), e
+
     def walk(e):
         i = e.get_id()
         if i in cache:
@@ -386,8 +407,21 @@ def abstract_nonlinear(formulas):
                 r = fn("mul", [c.sort() for c in rest], e.sort())(*rest)
                 for c in nums:
                     r = c * r
-        elif k in (z3.Z3_OP_DIV, z3.Z3_OP_IDIV, z3.Z3_OP_MOD) and not is_num(kids[1]):
-            r = fn({z3.Z3_OP_DIV: "div", z3.Z3_OP_IDIV: "idiv", z3.Z3_OP_MOD: "mod"}[k], [c.sort() for c in kids], e.sort())(*kids)
+        elif k == z3.Z3_OP_DIV and not is_num(kids[1]):
+            # (c x) / (e y) = (c / e) (x / y) for numerals c, e != 0: numeral factors are kept outside the abstraction
+            cn, xn = split_coef(kids[0])
+            cd, xd = split_coef(kids[1])
+            if xn is None:
+                xn = z3.RealVal(1)
+            if xd is None or cd == 0:
+                r = fn("div", [c.sort() for c in kids], e.sort())(*kids)
+            else:
+                r = fn("div", [xn.sort(), xd.sort()], e.sort())(xn, xd)
+                q = cn / cd
+                if q != 1:
+                    r = z3.RealVal(str(q)) * r
+        elif k in (z3.Z3_OP_IDIV, z3.Z3_OP_MOD) and not is_num(kids[1]):
+            r = fn({z3.Z3_OP_IDIV: "idiv", z3.Z3_OP_MOD: "mod"}[k], [c.sort() for c in kids], e.sort())(*kids)
         elif k == z3.Z3_OP_POWER:
             r = fn("pow", [c.sort() for c in kids], e.sort())(*kids)
         if r is None:
